@@ -30,6 +30,9 @@ type scEvent struct {
 	HasSC   bool `json:"has_shortcut"`
 	// Engine: a network engine holding only this rule reports it for the request
 	Engine bool `json:"engine"`
+	// Hostreq / Hostname: the request is the hostname request of a DNS query for this name
+	Hostreq  bool  `json:"hostreq"`
+	Hostname []int `json:"hostname"`
 }
 
 const scFill = "abcdefghijklmnopqrstuvwxyz0123456789-_"
@@ -92,6 +95,15 @@ func instantiate(pat string, rnd *rand.Rand, pad int, flip bool) string {
 	return b.String()
 }
 
+// scRequest builds the request: a URL, or - for "hostname:<name>" - the hostname request of a DNS query, which the
+// library matches as the URL "http://<name>"
+func scRequest(url string) *rules.Request {
+	if h, ok := strings.CutPrefix(url, "hostname:"); ok {
+		return rules.NewRequestForHostname(h)
+	}
+	return rules.NewRequest(url, "", rules.TypeOther)
+}
+
 func scObserve(text, url string) (with, without, lowerOK, hasSC, engine bool, kept string, pv string) {
 	pv = safeCall(func() {
 		r1, err := rules.NewNetworkRule(text, 1)
@@ -101,18 +113,26 @@ func scObserve(text, url string) (with, without, lowerOK, hasSC, engine bool, ke
 		r2, _ := rules.NewNetworkRule(text, 1)
 		hasSC = r2.Shortcut != ""
 		r2.Shortcut = ""
-		q := rules.NewRequest(url, "", rules.TypeOther)
+		q := scRequest(url)
 		kept = q.URL
 		lowerOK = q.URLLowerCase == strings.ToLower(q.URL)
 		with = r1.Match(q)
-		without = r2.Match(rules.NewRequest(url, "", rules.TypeOther))
-		// ... and through the index of a network engine that holds nothing but this rule
+		without = r2.Match(scRequest(url))
+		// ... and through the index of a network engine that holds nothing but this rule (unless a list would not read
+		// this text as a network rule at all: "name.example" alone on a line is a hosts entry)
+		if lr, lerr := rules.NewRule(text, 1); lerr != nil || lr == nil {
+			engine = with
+			return
+		} else if _, isNet := lr.(*rules.NetworkRule); !isNet {
+			engine = with
+			return
+		}
 		st, err := layoutStorage([]string{text}, []int{1})
 		if err != nil {
 			panic(err)
 		}
 		engine = false
-		for _, r := range urlfilter.NewNetworkEngine(st).MatchAll(rules.NewRequest(url, "", rules.TypeOther)) {
+		for _, r := range urlfilter.NewNetworkEngine(st).MatchAll(scRequest(url)) {
 			engine = engine || r.RuleText == text
 		}
 	})
@@ -154,12 +174,18 @@ func cmdDriveShortcut(args []string) error {
 	}
 	// grammar-made patterns next to the ones of the bundled lists (the grammar-made ones are all kept)
 	fromLists := len(pats)
+	labelPats := map[string]bool{}
 	for i := 0; i < n/4; i++ {
 		p := []string{"||", "|http://", "", "", "||"}[rnd.Intn(5)] + fill(rnd, 2+rnd.Intn(5)) + ".example"
 		for k := rnd.Intn(3); k > 0; k-- {
 			p += []string{"^", "*", "/", "/*/", "^*"}[rnd.Intn(5)] + fill(rnd, 1+rnd.Intn(8))
 		}
 		p += []string{"", "^", "|", "^|", "*"}[rnd.Intn(5)]
+		if i%9 == 7 {
+			// "/label.": for a hostname request such a pattern is matched against "http://<hostname>"
+			p = "/" + []string{"zone0", "cdn-z9", "a0z", "x", "ads_1"}[rnd.Intn(5)] + fill(rnd, rnd.Intn(3)) + "."
+			labelPats[p] = true
+		}
 		if i%9 == 4 {
 			// a dollar sign that is the last character of the rule text has no options behind it: it is a literal
 			p = strings.TrimRight(p, "|^*") + []string{"/price$", "?cost=$", "$"}[rnd.Intn(3)]
@@ -201,6 +227,11 @@ func cmdDriveShortcut(args []string) error {
 			{"last-character-missing", instantiate(p[:len(p)-1], rnd, 0, false)},
 			{"first-character-missing", instantiate(p[1:], rnd, 0, false)},
 		}
+		if labelPats[p] {
+			lab := strings.Trim(p, "/.")
+			vs = append(vs, variant{"hostname-request", "hostname:" + lab + ".example.org"}, variant{"hostname-request", "hostname:sub." + lab + ".example"},
+				variant{"hostname-request", "hostname:" + lab + "x.example.org"})
+		}
 		for _, v := range vs {
 			with, without, lowerOK, hasSC, engine, kept, pv := scObserve(text, v.url)
 			if pv != "" {
@@ -212,6 +243,10 @@ func cmdDriveShortcut(args []string) error {
 				LowerOK: lowerOK, HasSC: hasSC, Engine: engine, URL: []int{}}
 			if len(kept) <= 160 {
 				ev.URL = bytesToInts(kept)
+			}
+			ev.Hostname = []int{}
+			if h, ok := strings.CutPrefix(v.url, "hostname:"); ok {
+				ev.Hostreq, ev.Hostname = true, bytesToInts(h)
 			}
 			if len(v.url) > 4096 {
 				long++
